@@ -9,9 +9,7 @@ time after everything else has finished."""
 import sys, os, json, shutil, re, subprocess, tempfile, time, concurrent.futures
 os.environ.setdefault("VERIF_EVIDENCE_DIR", "/var/tmp/verif-scratch-evidence"); os.makedirs(os.environ["VERIF_EVIDENCE_DIR"], exist_ok=True)
 REPO = "/repo"; VERIF = os.path.dirname(os.path.dirname(os.path.abspath(__file__)))
-NEIGH = {"C01": [], "C02": ["C03", "C04", "C17"], "C03": [], "C04": [], "C05": [], "C06": ["C07", "C03"], "C07": ["C06", "C11"],
-         "C08": ["C09", "C10"], "C09": ["C08"], "C10": ["C08", "C18"], "C11": ["C02", "C07"], "C12": [], "C13": ["C12"], "C14": [], "C15": [],
-         "C16": [], "C17": [], "C18": [], "C19": [], "C20": ["C18", "C08"]}
+NEIGH = {}      # only the check of the property the change was written against (neighbours were run in rounds 1-4, see the meta.json files)
 def sh(cmd, cwd=None, timeout=3600, env=None):
     try:
         r = subprocess.run(cmd, shell=True, cwd=cwd, capture_output=True, text=True, timeout=timeout, env=env); return r.returncode, r.stdout + r.stderr
